@@ -149,7 +149,7 @@ func main() {
 }
 
 func estimator(r *vlib.Run) {
-	r.Section("estimator", r.N(150, 2500), vlib.SectionOpts{Sequential: true}, func(c *vlib.Case) {
+	r.Section("estimator", r.N(150, 12000), vlib.SectionOpts{Sequential: true}, func(c *vlib.Case) {
 		rng := c.Rng
 		// a one-pixel-wide image has no defined projection (centre and half-width coincide), so sizes start at 2
 		w, h := 2+rng.Intn(24), 2+rng.Intn(18)
@@ -347,7 +347,7 @@ func dispatchChild() {
 }
 
 func dispatch(r *vlib.Run) {
-	r.Section("dispatch", r.N(8, 60), vlib.SectionOpts{Sequential: true, Watchdog: 5 * time.Minute}, func(c *vlib.Case) {
+	r.Section("dispatch", r.N(8, 120), vlib.SectionOpts{Sequential: true, Watchdog: 5 * time.Minute}, func(c *vlib.Case) {
 		cpus := []int{1, 2, 3, 5, 8, 16}[c.Index%6]
 		var out []byte
 		var err error
